@@ -218,10 +218,11 @@ def check_bb(
     if bb == cfg.entry_bb:
         assert len(bb.predecessors) == 0
         for x, use in bb.vars.used.items():
-            if (
-                x not in cfg.ass_before[bb]
-                and x not in globals
-                and x not in generic_params
+            # Following Python, a name that is assigned somewhere in the function body is
+            # a local everywhere in it and does not fall back to a global of that name
+            is_local = x in cfg.assigned_somewhere and x not in generic_params
+            if x not in cfg.ass_before[bb] and (
+                is_local or (x not in globals and x not in generic_params)
             ):
                 raise GuppyError(VarNotDefinedError(use, x))
 
